@@ -18,6 +18,10 @@ def nontrivial(engine, opline):
     if engine == 'block':
         # non-trivial: a transaction line that was admitted (not a begin/end line, not refused at admission)
         return bool(t) and t[0] in ('eth', 'cos')
+    if engine == 'indexer':
+        return bool(t) and t[0] == 'idx'
+    if engine == 'indexersvc':
+        return bool(t) and t[0] == 'svc'
     if engine == 'binsearch':
         return bool(t) and t[0] == 'bs' and ('0' in t[3] and '1' in t[3])
     if engine == 'query':
@@ -257,6 +261,21 @@ PROPS['C08'] = dict(
     assumptions=['check-state vs committed-state separation, the query multistore branch and the simulate branch are BaseApp mechanisms (trusted SDK code) — exercised by the store digest around every request',
                  'prediction (same return data, logs, gas) is asserted for calls that read neither block context nor sender balance; it is tied by delivery, not proved: both paths run ApplyMessageWithConfig (regenerated call-site table)',
                  'estimate executability is proved for the state the estimate was computed on; the delivery check is restricted to calls whose outcome does not depend on the preceding delivery in the same block'],
+)
+
+PROPS['C14'] = dict(
+    lean_modules=['Model.Indexer', 'Properties.C14', 'Properties.C13', 'Facts.Indexer', 'Facts.Block'],
+    facts=['*'],
+    theorems=['C14_lookup_by_hash', 'C14_lookup_by_index', 'C14_index_eq_consensus', 'C14_reindex_idempotent', 'C14_restart_skips_fails',
+              'C14_restart_partial', 'C14_restart_resumes', 'indexFrom_get', 'indexFrom_get_other', 'cntBefore_eq_consensus', 'C13_txIndex', 'C13_logIndex',
+              'C13_cumulativeGas', 'fact_one_batch_per_block', 'fact_restart_rule', 'fact_log_index_restored'],
+    engines=[dict(name='indexer', test='TestEngineIndexer', quick=40, thorough=1200, thorough_seeds=2),
+             dict(name='indexersvc', test='TestEngineIndexerService', quick=1, thorough=6, thorough_seeds=1, no_model=True)],
+    rule='E-indexer: multi-transaction blocks of every outcome class (20 tx kinds of E-block, heavy blocks, undecodable bytes inserted at random positions) from the real FinalizeBlock are indexed by the real KVIndexer; every Ethereum hash of the block, an older hash, an unknown hash, every (block, index) up to two past the end and of neighbouring heights are looked up; one block in five is first indexed with an injected failure of the batch write, every block is indexed twice; the real JSON-RPC backend over the recorded blocks must report sender, status, gas used, cumulative gas, log indices and transaction index of the consensus results. E-indexersvc: the real EVMIndexerService is stopped before it hears of a block with Ethereum transactions and restarted on the same database (non-empty and empty). non-trivial = every block line; distinct by op-line hash',
+    assumptions=['the CometBFT RPC client is replaced by a recorder serving the blocks and results of the real FinalizeBlock calls (block hash and header fields other than height are synthetic)',
+                 'getBlock / getLogs views are covered through the same event parsing as the receipts; block-level RPC formatting is not compared field by field',
+                 'goleveldb / memdb batch atomicity is trusted; the injected fault is a failing batch write',
+                 'tx hashes are unique within the history (replay protection, C06)'],
 )
 
 NOT_APPLICABLE = {}
